@@ -122,7 +122,7 @@ var (
 	objIDs    = []string{"1", "2", "1|x", "10"}
 	relations = []string{"viewer", "editor", "member", "parent"}
 	users     = []string{"user:anne", "user:bob", "user:*", "group:eng#member", "group:eng", "group:fga#member", "group:*",
-		"folder:1#viewer", "folder:1", "doc:2#editor", "employee:*", "user:anne@x.org", "group:eng#owner"}
+		"folder:1#viewer", "folder:1", "doc:2#editor", "employee:*", "user:anne@x.org", "group:eng#owner", "users:zed", "groups:eng#member"}
 	condNames = []string{"", "", "c1", "c2"}
 )
 
@@ -140,8 +140,8 @@ func une(s string) string {
 }
 
 func condsField(r *hx.Rand) string {
-	switch r.Intn(12) {
-	case 0, 1, 2, 3, 4:
+	switch r.Intn(20) {
+	case 0, 1, 2, 3, 4, 12, 13, 14, 15, 16, 17, 18, 19:
 		return "nil"
 	case 5:
 		return "~"
@@ -267,8 +267,10 @@ func gen(r *hx.Rand, n int, tier string, emit func(string), st *hx.Stats) {
 				case 2:
 					usr = hx.Pick(c, users)
 				case 3: // the object part of a userset (F4e shape)
-					o, _ := tuple.SplitObjectRelation(src.user)
-					usr = o
+					if c.Chance(1, 2) {
+						o, _ := tuple.SplitObjectRelation(src.user)
+						usr = o
+					}
 				}
 				conds := condsField(c)
 				if obj == "" && rel == "" && usr == "" {
@@ -309,7 +311,7 @@ func gen(r *hx.Rand, n int, tier string, emit func(string), st *hx.Stats) {
 					case 7, 8:
 						rs = append(rs, hx.Pick(c, []string{"user", "group", "employee"})+"/w")
 					case 9:
-						if len(rs) > 0 {
+						if len(rs) > 0 && c.Chance(1, 2) {
 							rs = append(rs, rs[c.Intn(len(rs))]) // duplicate
 							st.Inc("rut-duplicate-restriction")
 						} else {
@@ -340,11 +342,11 @@ func gen(r *hx.Rand, n int, tier string, emit func(string), st *hx.Stats) {
 				}
 				for j := 0; j < nu; j++ {
 					u := src.user
-					if c.Chance(1, 3) {
+					if j > 0 {
 						u = hx.Pick(c, users)
 					}
 					o, rl := tuple.SplitObjectRelation(u)
-					switch c.Intn(8) {
+					switch c.Intn(16) {
 					case 0:
 						rl = "" // object of a userset, without relation (F4e shape)
 					case 1:
@@ -354,14 +356,23 @@ func gen(r *hx.Rand, n int, tier string, emit func(string), st *hx.Stats) {
 							continue
 						}
 					}
-					us = append(us, o+"/"+rl)
+					x := o + "/" + rl
+					dup := false
+					for _, y := range us {
+						if y == x {
+							dup = true
+						}
+					}
+					if !dup {
+						us = append(us, x)
+					}
 				}
 				ustr := "-"
 				if len(us) > 0 {
 					ustr = strings.Join(us, ",")
 				}
 				ids := "nil"
-				switch c.Intn(8) {
+				switch c.Intn(14) {
 				case 0:
 					ids = "-"
 					st.Inc("rswu-empty-objectids")
